@@ -193,9 +193,10 @@ def map_attribute_to_index(m, attribute, key_attribute, value_attribute=None):
             item = ['m', v[1], [[a, b] for a, b in v[2]]]
         else:
             item = ['m', MAP, [[s(value_attribute), v]]]
-        if has(item, key_attribute):
-            raise Unspecified('key attribute already present in an item')
-        item[2].append([s(key_attribute), copy.deepcopy(k)])
+        if not has(item, key_attribute):
+            # "the following will *also* work": an item written in full (naming
+            # itself) stays as it is
+            item[2].append([s(key_attribute), copy.deepcopy(k)])
         pairs.append([k, item])
     mp[2][:] = pairs
 
